@@ -228,6 +228,10 @@ func propC14(c *Ctx) {
 		ruleThrowIdentity(c, rti)
 		rce := c.Rule("callback-err", "a library callback that records the error of the script function keeps the first error (no further call once one is recorded) in a variable local to the call", 1)
 		ruleCallbackErr(c, rce)
+		rav := c.Rule("arity-with-variadic", "every function that compares an argument count with a compiled function's NumParams also looks at Variadic (NumParams counts the rest parameter)", 3)
+		ruleArityWithVariadic(c, rav)
+		rir := c.Rule("invoke-result-identity", "Invoke returns the object the call produced (first result of an (Object, error) call) or Undefined on every path, never something computed from it", 2)
+		ruleInvokeResultIdentity(c, rir)
 	}()
 	ri := c.Rule("child-init", "every VM field that run-time code reads and Run's prologue does not initialise is stored by the pool's acquire on every path (release zeroes the whole VM), and every Bytecode field run-time code reads is stored into the child's private Bytecode", 6)
 	vf := getVMFacts(c, ri)
